@@ -8,6 +8,7 @@ import (
 	"time"
 
 	"pault.ag/go/debian/changelog"
+	"pault.ag/go/debian/version"
 
 	"verif/harness/core"
 )
@@ -96,13 +97,10 @@ func renderClEntry(r *core.Rand, e clEntry) string {
 		opts = append(opts, o[0]+"="+o[1])
 	}
 	var b strings.Builder
-	b.WriteString(e.Source + " (" + e.Version + ") " + strings.Join(e.Dists, " ") + "; " + strings.Join(opts, r.Pick([]string{", ", ","})) + "\n")
+	b.WriteString(e.Source + " (" + e.Version + ") " + strings.Join(e.Dists, " ") + "; " + strings.Join(opts, r.Pick([]string{", ", ",", " , ", ",  ", ",\t"})) + "\n")
 	b.WriteString("\n")
 	for _, l := range e.Body {
-		if l == " -- not a trailer? no: this is indented differently" {
-			l = "  -- two blanks before the dashes"
-		}
-		b.WriteString(l + "\n")
+		b.WriteString(clBodyLine(l) + "\n")
 	}
 	b.WriteString("\n")
 	b.WriteString(" -- " + e.Who + "  " + e.When.Format(time.RFC1123Z) + "\n")
@@ -145,11 +143,14 @@ func streamChangelog(g *core.G) {
 		var full strings.Builder
 		var ends []int
 		m := r.Range(1, 4)
+		var models []clEntry
 		for k := 0; k < m; k++ {
 			if k > 0 {
 				full.WriteString(strings.Repeat("\n", r.Range(1, 3)))
 			}
-			full.WriteString(renderClEntry(r, genClEntry(r)))
+			e := genClEntry(r)
+			models = append(models, e)
+			full.WriteString(renderClEntry(r, e))
 			ends = append(ends, full.Len())
 		}
 		if r.Bool() {
@@ -158,6 +159,7 @@ func streamChangelog(g *core.G) {
 		text := full.String()
 		emitChangelog(g, text)
 		g.Emit("law-cltrunc", core.Hex(text), strconv.Itoa(m), "0")
+		g.Emit("law-clfaithful", core.Hex(text), core.Hex(expectedClDump(models)))
 		// every truncation point (thorough) / a sample of them (quick)
 		step := 1
 		if !g.Thorough {
@@ -201,4 +203,51 @@ func init() {
 			return fmt.Sprintf("%s(%q) %v", op, core.MustUnHex(a[0]), a[1:min(len(a), 3)])
 		},
 	})
+}
+
+func clBodyLine(l string) string {
+	if l == " -- not a trailer? no: this is indented differently" {
+		return "  -- two blanks before the dashes"
+	}
+	return l
+}
+
+// expectedClDump: what parsing must return for the entry models, computed from the models
+func expectedClDump(es []clEntry) string {
+	var xs []string
+	for _, e := range es {
+		v, _ := version.Parse(e.Version)
+		var args []string
+		m := map[string]string{}
+		for _, o := range e.Opts {
+			m[o[0]] = o[1]
+		}
+		for k, val := range m {
+			args = append(args, core.Hex(k)+"="+core.Hex(val))
+		}
+		sort.Strings(args)
+		body := "\n"
+		for _, l := range e.Body {
+			body += clBodyLine(l) + "\n"
+		}
+		body += "\n"
+		xs = append(xs, "("+strings.Join([]string{core.Hex(e.Source), strings.Join(encVersion(v), " "), core.Hex(strings.Join(e.Dists, " ")),
+			"{" + strings.Join(args, ",") + "}", core.Hex(body), core.Hex(e.Who), whenDump(e.When)}, " ")+")")
+	}
+	return "[" + strings.Join(xs, ";") + "]"
+}
+
+func init() {
+	// law: every entry comes back with the source, version, distributions, options, verbatim
+	// change text, maintainer and timestamp written in it
+	changelogImpl["law-clfaithful"] = func(a []string) string {
+		es, err := changelog.Parse(strings.NewReader(core.MustUnHex(a[0])))
+		if err != nil {
+			return "FAIL rejected: " + err.Error()
+		}
+		if got, want := dumpClEntries(es), core.MustUnHex(a[1]); got != want {
+			return "FAIL entries differ from what was written: got " + clipStr(got, 300) + " want " + clipStr(want, 300)
+		}
+		return "ok"
+	}
 }
